@@ -6,6 +6,7 @@ import (
 	"os"
 	"strconv"
 	"strings"
+	"unicode/utf8"
 
 	"pgregory.net/rapid"
 )
@@ -265,7 +266,14 @@ func GenTable(t *rapid.T, o TableOpt) Table {
 			}
 		case KString:
 			c.S = make([]*string, n)
+			allEmpty := rapid.IntRange(0, 19).Draw(t, "allemptystrings") == 0 // a column of "" (and nulls) only: no byte of content
 			for r := range c.S {
+				if allEmpty {
+					if o.NoNull || rapid.IntRange(0, 2).Draw(t, "emptyornull") > 0 {
+						c.S[r] = Sp("")
+					}
+					continue
+				}
 				c.S[r] = GenStrPtr(t, o.Wide, o.NoNull)
 			}
 		case KEnum:
@@ -287,6 +295,35 @@ func GenTable(t *rapid.T, o TableOpt) Table {
 					}
 					c.S[r] = Sp(rapid.SampledFrom(usedValues(decl)).Draw(t, "ev"))
 				}
+			}
+		}
+		// now and then a string or declared enum column holds upper-case forms only (such a column can be the output of the
+		// ToUpper built-in: BuildVia and the derivation routes then produce it that way)
+		if (c.Kind == KString || (c.Kind == KEnum && c.Enum != nil)) && rapid.IntRange(0, 7).Draw(t, "uppercaseonly") == 0 {
+			up := c
+			up.S = make([]*string, len(c.S))
+			okAll := true
+			for i, p := range c.S {
+				if p != nil {
+					u := strings.ToUpper(*p)
+					up.S[i] = &u
+					okAll = okAll && utf8.ValidString(*p)
+				}
+			}
+			if c.Enum != nil {
+				seen := map[string]bool{}
+				up.Enum = make([]string, len(c.Enum))
+				for i, v := range c.Enum {
+					u := strings.ToUpper(v)
+					if seen[u] || !utf8.ValidString(v) {
+						okAll = false
+					}
+					seen[u] = true
+					up.Enum[i] = u
+				}
+			}
+			if okAll {
+				c = up
 			}
 		}
 		tab.Cols = append(tab.Cols, c)
